@@ -1,6 +1,6 @@
 """C14 — everything h3 writes is valid HTTP/3 (WireOut.tla judged on per-stream byte logs)."""
 import vlib
-from props import common
+from props import common, corpus
 
 
 def sig(s, trace, why):
@@ -23,6 +23,9 @@ def run(tier, chk):
         p["cfg"]["log_wrote"] = True
         p["cfg"]["setup_log"] = True
     common.run_sim(chk, wd, pair, "C14_Trace", label="psim", shards=14, sig_of=sig)
+    if tier != "quick":
+        # the scenario families of the other checks, judged by the same wire rules
+        corpus.cross(chk, "C14", "C14_Trace", sig_of=lambda s, t, w: f"c14:corpus:{s.get('family')}:" + sig(s, t, w), exclude=("C14",))
     chk.exhaustive = True
     chk.distinct_nontrivial = len(scns) + len(pair)
     chk.rule = (f"API programs of up to {m} calls after the head (send_data 0/1/5/70 bytes, send_trailers, finish, drop) x shutdown(n in 0,1,15,4095: GOAWAY identifiers at varint form boundaries) x second request x 5 configurations "
